@@ -527,6 +527,8 @@ func v6AddClass(err error) string {
 	}
 	s := err.Error()
 	switch {
+	case errors.Is(err, stoabs.ErrCommitFailed):
+		return "err:cancelled"
 	case errors.Is(err, ErrPreviousTransactionMissing):
 		return "err:prev-missing"
 	case errors.Is(err, ErrInvalidLamportClockValue):
@@ -653,6 +655,28 @@ func (g *v6Gate) Write(ctx context.Context, fn func(stoabs.WriteTx) error, opts 
 	return g.KVStore.Write(ctx, fn, opts...)
 }
 
+// a subscriber whose Save cancels the caller's context while the write transaction is open (when armed)
+type v6CancelSub struct {
+	mu     sync.Mutex
+	cancel context.CancelFunc
+}
+
+func (c *v6CancelSub) Name() string { return "zz-cancel" }
+func (c *v6CancelSub) Save(_ stoabs.WriteTx, _ Event) error {
+	c.mu.Lock()
+	defer c.mu.Unlock()
+	if c.cancel != nil {
+		c.cancel()
+	}
+	return nil
+}
+func (c *v6CancelSub) Notify(_ Event)                        {}
+func (c *v6CancelSub) Finished(_ hash.SHA256Hash) error      { return nil }
+func (c *v6CancelSub) Run() error                            { return nil }
+func (c *v6CancelSub) GetFailedEvents() ([]Event, error)     { return nil, nil }
+func (c *v6CancelSub) Close() error                          { return nil }
+func (c *v6CancelSub) arm(f context.CancelFunc)              { c.mu.Lock(); c.cancel = f; c.mu.Unlock() }
+
 // ---------------------------------------------------------------- a node under test
 
 type v6Sub struct {
@@ -676,6 +700,7 @@ type v6Node struct {
 	ledger map[string][]string // per subscriber, events delivered since last drain
 	refs   []hash.SHA256Hash   // probe list
 	phs    []hash.SHA256Hash
+	canc   *v6CancelSub
 }
 
 var v6Counter int
@@ -733,8 +758,19 @@ func v6NewNode(base string, subs []v6Sub, keys []*v6Key) *v6Node {
 		}
 		n.notifs[sub.Name] = nt
 	}
+	n.canc = &v6CancelSub{}
+	n.st.notifiers.Store(n.canc.Name(), n.canc)
 	n.st.loadState(context.Background())
 	return n
+}
+
+// observables the model does not compute (IBLT), written to impl.side for the oracle: digest of the whole IBLT and its clock
+func (n *v6Node) side() string {
+	iblt, clock := n.st.IBLT(math.MaxUint32)
+	b, _ := iblt.MarshalBinary()
+	h := sha256.Sum256(b)
+	xor, xclock := n.st.XOR(math.MaxUint32)
+	return fmt.Sprintf("iblt=%s@%d xor=%s@%d", hex.EncodeToString(h[:6]), clock, xor.String()[:12], xclock)
 }
 
 func (n *v6Node) close() {
@@ -890,6 +926,7 @@ type v6Op struct {
 	Calls []v6Call `json:"calls,omitempty"`
 	Sched []int    `json:"sched,omitempty"`
 	Obs   bool     `json:"obs,omitempty"` // observe the state after every step of the schedule
+	Cancel bool    `json:"cancel,omitempty"` // add: the context is cancelled by a subscriber's Save inside the write transaction
 	Note  string   `json:"note,omitempty"`
 }
 
@@ -965,7 +1002,15 @@ func (x *v6Exec) run(op v6Op) string {
 	case "add":
 		in, _ := base64.StdEncoding.DecodeString(op.Call.In)
 		x.probe(op.Call)
-		r := x.node.add(context.Background(), in, v6Payload(op.Call.Pid))
+		ctx := context.Background()
+		if op.Cancel {
+			c, cancel := context.WithCancel(ctx)
+			defer cancel()
+			x.node.canc.arm(cancel)
+			ctx = c
+		}
+		r := x.node.add(ctx, in, v6Payload(op.Call.Pid))
+		x.node.canc.arm(nil)
 		return "r=" + r + " | " + x.node.observe()
 	case "reopen":
 		// a second state object on the same database sees the same DAG
@@ -1455,10 +1500,40 @@ func (g *v6Gen) history(steps int, schedules bool) {
 		g.emit(v6Op{Op: "doc", Did: did, Src: src, Doc: &v6DocEntry{Res: res, Vms: vms}})
 	}
 
+	// on the EMPTY DAG: transactions without prevs but with a non-zero clock arrive before the real root
+	for g.rnd.Intn(2) == 0 {
+		pid := newPid()
+		k := g.rnd.Intn(len(g.keys))
+		sp := v6Spec{prevs: nil, lc: strconv.Itoa(1 + g.rnd.Intn(600)), signer: k, embed: k, pid: pid, ph: v6Sha(v6Payload(&pid))}
+		c := offer(sp, g.rnd.Intn(2), "fake-root-first(no prevs, lc>0, empty DAG)")
+		g.emit(v6Op{Op: "add", Call: &c})
+	}
 	for step := 0; step < steps; step++ {
 		kind := g.rnd.Intn(100)
 		if len(dagTxs) == 0 {
 			kind = 0
+		}
+		if len(dagTxs) > 0 && g.rnd.Intn(20) == 0 {
+			// the caller's context is cancelled inside the write transaction: nothing may stay behind; the same bytes are then admitted normally
+			sp, didName := validSpec()
+			if sp.embed < 0 {
+				regDoc(didName, sp.prevs[0], "doc", [][2]any{{sp.kid, sp.signer}})
+			}
+			c := offer(sp, g.rnd.Intn(2), "cancelled-in-write-tx")
+			g.emit(v6Op{Op: "add", Call: &c, Cancel: true})
+			if g.rnd.Intn(2) == 0 {
+				c.Note = "after-cancel"
+				if strings.HasPrefix(g.emit(v6Op{Op: "add", Call: &c}), "r=ok") {
+					admit(sp, c, "")
+				}
+			}
+			if g.rnd.Intn(3) == 0 {
+				t := dagTxs[g.rnd.Intn(len(dagTxs))]
+				c2 := t.call
+				c2.Phs, c2.Pid, c2.Sha, c2.Note = []string{}, nil, "", "cancelled-re-add"
+				g.emit(v6Op{Op: "add", Call: &c2, Cancel: true})
+			}
+			continue
 		}
 		switch {
 		case kind < 40: // valid
@@ -1794,8 +1869,20 @@ func (g *v6Gen) genSchedules(threads int, scenarios int) {
 		}
 		var calls []v6Call
 		note := ""
-		kind := sc % 8
+		kind := sc % 9
+		if kind == 8 {
+			plen, prefix, last, lastLc, prevs = 0, nil, "", -1, nil
+		}
 		switch kind {
+		case 8: // empty DAG: a prev-less transaction with a non-zero clock races the real root
+			c, _ := mk(nil, 3+g.rnd.Intn(5), 0, 1)
+			d, _ := mk(nil, 0, 1, 1)
+			calls = []v6Call{c, d}
+			if threads > 2 {
+				e, _ := mk(nil, 1, 2, 0)
+				calls = append(calls, e)
+			}
+			note = "fake-root-vs-root"
 		case 0: // the same transaction from every thread
 			c, _ := mk(prevs, lastLc+1, 0, 1)
 			for t := 0; t < threads; t++ {
@@ -1976,6 +2063,11 @@ func v6Main(t *testing.T, out string, body func(sink func(op v6Op) string)) {
 	}
 	defer fo.Close()
 	defer fi.Close()
+	fs, err := os.Create(filepath.Join(out, "impl.side"))
+	if err != nil {
+		t.Fatal(err)
+	}
+	defer fs.Close()
 	x := &v6Exec{base: out}
 	body(func(op v6Op) string {
 		b, _ := json.Marshal(op)
@@ -1991,6 +2083,11 @@ func v6Main(t *testing.T, out string, body func(sink func(op v6Op) string)) {
 			line = x.run(op)
 		}()
 		fi.WriteString(line + "\n")
+		if x.node != nil && op.Op != "parse" {
+			fs.WriteString(x.node.side() + "\n")
+		} else {
+			fs.WriteString("-\n")
+		}
 		return line
 	})
 	if x.node != nil {
